@@ -20,6 +20,7 @@ EXPLANATION = (
     "project-wide search - the `project` parameter of the correlate methods is only passed on and used "
     "for common blocks. R5: types are correlated in extension order (toposort over resolved parents, "
     "looked up after host/USE merging). Designation of the right entity on every program is not decided."
+    " R6: declarations local to BLOCK/ASSOCIATE constructs stay out of the enclosing scope's tables. R7 (shared with C06.R3): importers are correlated after their exporters."
 )
 ASSUMPTIONS = ["dict writes are subscript stores, update, setdefault, pop, clear, del"]
 
